@@ -550,14 +550,21 @@ func (s *vfSession) serverMessage() string {
 }
 
 // clientVerdict inspects what the client wrote: "exit" (it reported success), "fail" (it reported an error), "" (nothing).
-func (s *vfSession) clientVerdict() (string, string) {
+func (s *vfSession) clientVerdict() (string, string) { return s.clientVerdictSince(nil) }
+
+// clientVerdictSince looks only at the protocol lines behind the given per-link message counts (see msgCounts): in a sequence of
+// transfers an earlier transfer's fail line - possibly on the other link - must not be taken for this transfer's verdict.
+func (s *vfSession) clientVerdictSince(base map[*vfLink]int) (string, string) {
 	verdict, text := "", ""
 	for _, link := range []*vfLink{s.c2s, s.tunC2S} {
 		if link == nil {
 			continue
 		}
 		tr := link.transcript()
-		for _, m := range link.messages() {
+		for i, m := range link.messages() {
+			if i < base[link] {
+				continue
+			}
 			switch m.Typ {
 			case "EXIT":
 				verdict = "exit"
@@ -572,6 +579,16 @@ func (s *vfSession) clientVerdict() (string, string) {
 		}
 	}
 	return verdict, text
+}
+
+func (s *vfSession) msgCounts() map[*vfLink]int {
+	out := map[*vfLink]int{}
+	for _, link := range []*vfLink{s.c2s, s.tunC2S} {
+		if link != nil {
+			out[link] = len(link.messages())
+		}
+	}
+	return out
 }
 
 func (s *vfSession) typeInput(b []byte) { s.userIn.feed(b) }
